@@ -71,6 +71,8 @@ def gen_problem(rng, cid):
         gas = rng.choice([0, 1, 2, 3, 10, 100, 2000])
         pos = [rng.choice([0.0, 1.0, -1.0, rng.uniform(-2, 2)]) for _ in range(3)]
         mask = [v for v in vs if rng.random() < 0.25]
+        if rng.random() < 0.15:
+            mask = list(vs) if rng.random() < 0.5 else list(used)        # every variable (of the expression) masked
         init = [rng.choice([0.0, 0.0, -0.0, 1.0, -1.0, rng.uniform(-3, 3)]) for _ in vs]
         p.q.append((p.ncmd + 1, gas, mask, init, used))
         # "Z": the long-lived evaluator holds, for a variable given +-0, the zero of the other sign
@@ -131,6 +133,16 @@ def run(replay=None):
             f = dict(x.split("=") for x in so[0].split()[1:])
             gc = int(f["gradcalls"])
             stats["grad_calls"] += gc
+            st = [l for l in out if l.startswith("ST ")]
+            if st:
+                g = dict(x.split("=") for x in st[0].split()[1:])
+                # (the residual of this overload is recomputed on ANOTHER deck - operand order, hence the sign of a zero
+                #  reaching atan2 or 1/v, differs between decks - so it is reported in the answer but not judged here; the
+                #  evaluator overload, which this one calls, is judged on its own deck above)
+                for key, what in (("masked", "a masked variable was returned by the Tree overload of findRoot"),
+                                  ("absent", "the Tree overload of findRoot modified a variable absent from the expression")):
+                    if g[key] != "1":
+                        ck.violation(key + ":tree", what, {"program": p.text(), "query": p.lines[cmd - 1], "oracle": st[0]})
             if f["residual"] != "1":
                 ck.violation("residual", "returned residual is not the expression at the returned assignment",
                              {"program": p.text(), "query": p.lines[cmd - 1], "result": sr[0], "oracle": so[0]})
